@@ -54,11 +54,13 @@ fn node_code(p: &Program, i: usize, op: &Op, out_deg: usize) -> NodeCode {
             let rid = p.ref_ids()[target];
             let t = format!("n{target}");
             let m = if *write { "mut " } else { "" };
+            // `#{g} name` with an explicit access group, plain `#name` for `group == u32::MAX`
+            let g = if *group == u32::MAX { String::new() } else { format!("{{{group}}} ") };
             let slice = match (&p.nodes[*target].op, *write) {
-                (Op::HoffSingleton, false) => format!("::std::slice::from_ref(#{{{group}}} {t})"),
-                (Op::HoffSingleton, true) => format!("::std::slice::from_mut(#{{{group}}} mut {t})"),
-                (_, false) => format!("(#{{{group}}} {t}).as_slice()"),
-                (_, true) => format!("(#{{{group}}} mut {t}).as_mut_slice()"),
+                (Op::HoffSingleton, false) => format!("::std::slice::from_ref(#{g}{t})"),
+                (Op::HoffSingleton, true) => format!("::std::slice::from_mut(#{g}mut {t})"),
+                (_, false) => format!("(#{g}{t}).as_slice()"),
+                (_, true) => format!("(#{g}mut {t}).as_mut_slice()"),
             };
             let _ = m;
             let call = if *write { "ref_write" } else { "ref_read" };
